@@ -71,6 +71,7 @@ type faultBucket struct {
 	simpleblob.Interface
 	mu         sync.Mutex
 	failStores int
+	failKinds  int
 	stores     int
 	lists      int
 	loadGate   map[string]chan struct{} // name -> closed when the load may proceed
@@ -98,7 +99,12 @@ func (b *faultBucket) Store(ctx context.Context, name string, data []byte) error
 	b.mu.Lock()
 	if b.failStores > 0 {
 		b.failStores--
+		b.failKinds++
+		k := b.failKinds
 		b.mu.Unlock()
+		if k%2 == 0 { // a request timeout of the storage backend (not the caller's context)
+			return fmt.Errorf("injected storage failure: request timed out: %w", context.DeadlineExceeded)
+		}
 		return errInjected
 	}
 	b.stores++
@@ -161,6 +167,7 @@ type loopAct struct {
 	Wipe       bool           `json:"wipe"`
 	Start      string         `json:"start"`
 	Other      bool           `json:"other"`
+	NoDBI      bool           `json:"nodbi"`
 	Img        map[string]Ver `json:"img"`
 }
 
@@ -181,6 +188,7 @@ type loopStep struct {
 	NBucket    int            `json:"nbucket"`
 	CommittedN int            `json:"committedN"`
 	NewestImg  map[string]Ver `json:"newestImg"`
+	NewestTxn  int            `json:"newestTxn"`
 }
 
 type loopInput struct {
@@ -451,7 +459,13 @@ func runLoopBehaviour(R *Result, in loopInput, beh []loopStep, bi int) error {
 	}
 	defer w.Close()
 	lr := &loopRunner{in: in, w: w, appLast: map[int]int{}, injected: map[string]bool{}, realFuture: 4000000000000000000}
-	lr.fb = &faultBucket{Interface: memory.New(), loadGate: map[string]chan struct{}{}}
+	lr.fb = &faultBucket{Interface: memory.New(), loadGate: map[string]chan struct{}{}, failKinds: bi % 2}
+	if bi%4 == 2 {
+		// files under the database's prefix that are not snapshots: they must not make the bucket "have snapshots"
+		for _, f := range []string{"default__README", "default__i1__notatimestamp__GX.pb.gz", "default__i9__20240101-000100-000000000__GX.unknownext"} {
+			_ = lr.fb.Interface.Store(context.Background(), f, []byte("x"))
+		}
+	}
 	w.Bucket = lr.fb
 	// real timestamps used by pre-existing data
 	w.tsAbs[1], w.tsAbs[2], w.tsAbs[3], w.tsAbs[4], w.tsAbs[5] = 1, 2, 3, 4, 5
@@ -607,6 +621,9 @@ func runLoopBehaviour(R *Result, in loopInput, beh []loopStep, bi int) error {
 			finishApp()
 		case "inject":
 			upd := lr.buildUpdate(a.Img, "remote1", now)
+			if a.NoDBI {
+				upd.Snapshot.Databases = nil // an update that holds no DBI at all
+			}
 			lr.injectedTimes = append(lr.injectedTimes, upd.NameInfo.Timestamp)
 			for k, v := range a.Img {
 				lr.injected[k+"="+v.String()] = true
@@ -936,6 +953,13 @@ func runLoopBehaviour(R *Result, in loopInput, beh []loopStep, bi int) error {
 			}
 			if fmt.Sprint(sortedVers(img)) != fmt.Sprint(sortedVers(st.NewestImg)) {
 				bad("conformance", "image-differs", si, nil, "stored snapshot holds %v, specification %v", sortedVers(img), sortedVers(st.NewestImg))
+			}
+			// C06: the transaction the snapshot names in its metadata is the one its content is the image of (the id
+			// adjusted after an empty write transaction - the specification's bucket entry carries it)
+			if upd, err := w.LoadBlob(newest); err == nil && upd.Snapshot != nil && st.NewestTxn > 0 {
+				if got := upd.Snapshot.Meta.LmdbTxnID; got != int64(st.NewestTxn) {
+					bad("C06", "meta-txnid", si, nil, "the stored snapshot names LMDB transaction %d in its metadata, its content is the image of transaction %d", got, st.NewestTxn)
+				}
 			}
 			// C05: the newest own snapshot never goes backwards
 			for ks, old := range lr.prevNewest {
